@@ -22,6 +22,23 @@ READER_STAGE = dict(cmd="reader", spec="Trace_Reader", histfile=True,
                     thorough=dict(chunks=12, nrec=3, maxlen=3, random=300, types=13))
 
 PROPS = {
+    "C13": dict(
+        level="fault_enumeration",
+        level_text="every truncation length 0..len of the .shp (index intact / absent; sequential and random access) and of the .shx, "
+                   "every k over the reads and seeks a full traversal issues (shp and shx), every short-read chunk size 1..9 plus random "
+                   "schedules, on real files of all 13 types; TLC evaluates the reader model ReadFile on the same truncated bytes and "
+                   "the property's relation on the real outcome; the reader model itself is checked by TLC (T6_Truncation) on every "
+                   "truncation of every file of the small codec scope",
+        level_note="trusted: TLC, the instrumented sources; files of 2-3 small records per type",
+        technique="exhaustive fault enumeration on the real reader, each outcome validated by TLC against the TLA+ reader model",
+        mc=[CODEC_MC],
+        stages=[dict(cmd="damage", spec="Trace_Damage",
+                     quick=dict(chunks=8, types=13, files=1),
+                     thorough=dict(chunks=16, types=13, files=6))],
+        rule="a case = (file, damage) with damage in {truncation length, failing k-th source call, short-read schedule}; "
+             "distinct = every enumerated (file, damage, route)",
+        exhaustive=True,
+    ),
     "C15": dict(
         level="model_checking",
         level_text="TLC explores every history up to the bound on the reader specification (the set A of allowed iteration starts) "
@@ -88,6 +105,27 @@ PROPS = {
         rule="a case = the bytes left by the real writer (cursor+drop, cursor+finalize, by path) for 0..4 shapes; "
              "the TLA+ strict validator/decoder StrictShp runs on those bytes",
         assumptions=["the strict decoder is the TLA+ operator StrictShp; it shares no code with the library"],
+    ),
+    "C04": dict(
+        level="model_checking",
+        level_text="TLC checks Inv_Index on every commit point of the writer model and T5 on the codec model; the real .shx bytes of "
+                   "every recorded case and history are parsed by the TLA+ StrictShx and compared with the record table obtained by "
+                   "walking the real .shp; on the reader side every recorded count / random access / iteration / size hint of the real "
+                   "reader (n = 0, 1, 2, 4 records of varying sizes, in memory and by path) must be a step of the reader specification",
+        level_note="trusted: TLC, instrumented destinations; bounded n and sampled size patterns",
+        technique=TECH_TRACE,
+        mc=[WRITER_MC, CODEC_MC, READER_MC],
+        stages=[dict(cmd="codec", spec="Trace_Codec",
+                     quick=dict(chunks=4, cases=8, large=1),
+                     thorough=dict(chunks=12, cases=50, large=6, sweep=1)),
+                dict(cmd="writer", spec="Trace_Writer", histfile=True,
+                     quick=dict(chunks=4, maxlen=2, random=4, modeltypes=1),
+                     thorough=dict(chunks=12, maxlen=4, random=40, modeltypes=13)),
+                dict(cmd="reader", spec="Trace_Reader",
+                     quick=dict(chunks=4, nrecs="0,1,2,4", maxlen=2, random=10, types=13),
+                     thorough=dict(chunks=8, nrecs="0,1,2,4,7", maxlen=2, random=100, types=13))],
+        rule="writer side: a case/history = real .shp/.shx pair; reader side: a run = one history of count / read_nth(0..n) / "
+             "iteration with size hints on a reader over a real pair",
     ),
     "C05": dict(
         level="model_checking",
